@@ -151,20 +151,25 @@ def main():
         res = plug.run(ctx)
     except Exception as exc:
         traceback.print_exc()
+        import subprocess as _sp
         frames = traceback.extract_tb(exc.__traceback__)
         in_repo = [f for f in frames if os.path.abspath(f.filename).startswith(os.path.abspath(common.REPO) + os.sep)]
-        if not in_repo:
+        infra = isinstance(exc, (OSError, MemoryError, TimeoutError, _sp.SubprocessError, ImportError)) \
+            or "model driver" in str(exc)
+        if infra and not in_repo:
             print("infrastructure error in correspondence/oracle harness")
             ctx.close()
             return 2
-        # the real code raised where the harness does not expect it: the correspondence
-        # can no longer be executed, which counts as a broken tie (never as exit 2)
-        last = in_repo[-1]
-        ctx.tie_broken.append({"kind": "harness-crash-in-repo-code",
+        # The real code raised where the harness does not expect it, or behaved so that an
+        # invariant the harness relies on no longer holds (a deterministic logic error in the
+        # harness on this tree): the correspondence can no longer be executed. That is a broken
+        # tie, never exit 2 (on the unchanged tree either outcome would mark the check broken).
+        last = (in_repo or frames)[-1]
+        ctx.tie_broken.append({"kind": "harness-crash-in-repo-code" if in_repo else "harness-assumption-broken",
                                "error": f"{type(exc).__name__}: {str(exc)[:300]}",
-                               "at": f"{os.path.relpath(last.filename, common.REPO)}:{last.lineno} in {last.name}"})
+                               "at": f"{last.filename}:{last.lineno} in {last.name}"})
         res = Result()
-        res.rule = "harness aborted by an unexpected exception raised inside /repo code"
+        res.rule = "harness aborted by an unexpected exception: the behaviour of /repo left what the harness models"
     ctx.close()
     for d in res.disagreements:
         ctx.tie_broken.append({"kind": "correspondence", **d})
